@@ -20,3 +20,38 @@ package cidprimary
 //@   fresh cp
 //@   ensures err == nil ==> cp != nil && !as(primary.PrimaryStorage, cp).$pending && !as(primary.PrimaryStorage, cp).$closed
 //@   ensures err != nil ==> cp == nil
+
+// Layer B (C01): the CID primary's pools. A record handed to Put is returned by Get from the
+// pool with exactly the key and value that were put (including nil and empty values, F3); the
+// location handed out is the logical end of the single primary file, which advances by the
+// 4-byte size prefix plus the record.
+//@ type CIDPrimary
+//@   invariant @pools self.nextPool.refs != nil && self.curPool.refs != nil && self.nextPool.refs != self.curPool.refs && self.file != nil && self.writer != nil
+//@   invariant @next-refs forall k int :: mhas(self.nextPool.refs, k) ==> 0 <= mget(self.nextPool.refs, k) && mget(self.nextPool.refs, k) < len(self.nextPool.blocks)
+//@   invariant @cur-refs forall k int :: mhas(self.curPool.refs, k) ==> 0 <= mget(self.curPool.refs, k) && mget(self.curPool.refs, k) < len(self.curPool.blocks)
+
+//@ func (cp *CIDPrimary) Put(key []byte, value []byte) (blk types.Block, err error)  property C01
+//@   preserves cp
+//@   local requires len(key) + len(value) < (1 << 31) && cp.length < (1 << 62)
+//@   modifies cp.length, cp.nextPool.blocks, mapof(cp.nextPool.refs), elems(cp.nextPool.blocks), cp.outstandingWork
+//@   ensures @ok err == nil
+//@   ensures @location blk.Offset == old(cp.length) && blk.Size == len(key) + len(value)
+//@   ensures @advance cp.length == old(cp.length) + 4 + len(key) + len(value)
+//@   ensures @pooled len(cp.nextPool.blocks) == old(len(cp.nextPool.blocks)) + 1 && cp.nextPool.blocks[old(len(cp.nextPool.blocks))].key == key && cp.nextPool.blocks[old(len(cp.nextPool.blocks))].value == value && (blk in cp.nextPool.refs) && cp.nextPool.refs[blk] == old(len(cp.nextPool.blocks))
+//@   ensures @kept forall i int :: 0 <= i && i < old(len(cp.nextPool.blocks)) ==> cp.nextPool.blocks[i] == old(cp.nextPool.blocks[i])
+
+//@ func (cp *CIDPrimary) getCached(blk types.Block) (key []byte, value []byte, err error)  property C01
+//@   preserves cp
+//@   ensures @next (blk in cp.nextPool.refs) ==> err == nil && key == cp.nextPool.blocks[cp.nextPool.refs[blk]].key && value == cp.nextPool.blocks[cp.nextPool.refs[blk]].value
+//@   ensures @cur !(blk in cp.nextPool.refs) && (blk in cp.curPool.refs) ==> err == nil && key == cp.curPool.blocks[cp.curPool.refs[blk]].key && value == cp.curPool.blocks[cp.curPool.refs[blk]].value
+//@   ensures @miss !(blk in cp.nextPool.refs) && !(blk in cp.curPool.refs) ==> key == nil && value == nil
+
+//@ func readNode(data []byte) (c cid.Cid, val []byte, err error)
+//@   trusted go-cid reader (dependency): a well-formed CID at the start of data is consumed
+//@   pure
+
+//@ func (cp *CIDPrimary) Get(blk types.Block) (key []byte, value []byte, err error)  property C01
+//@   preserves cp
+//@   local requires @size-in-range blk.Size < (1 << 31)
+//@   ensures @pooled-next (blk in cp.nextPool.refs) && cp.nextPool.blocks[cp.nextPool.refs[blk]].key != nil ==> err == nil && key == cp.nextPool.blocks[cp.nextPool.refs[blk]].key && value == cp.nextPool.blocks[cp.nextPool.refs[blk]].value
+//@   ensures @pooled-cur !(blk in cp.nextPool.refs) && (blk in cp.curPool.refs) && cp.curPool.blocks[cp.curPool.refs[blk]].key != nil ==> err == nil && key == cp.curPool.blocks[cp.curPool.refs[blk]].key && value == cp.curPool.blocks[cp.curPool.refs[blk]].value
